@@ -40,6 +40,7 @@ type xOpt struct {
 	Compact bool   `json:"compact"`
 	Sparse  bool   `json:"sparse"`
 	XLow    bool   `json:"xlow"`
+	NoHead  bool   `json:"nohead"`
 }
 
 type xCase struct {
@@ -110,7 +111,7 @@ func xBuild(c *xCase) ([]byte, int, error) {
 	if c.Opt.Big {
 		bl = 5000
 	}
-	f := &pdfw.File{EOL: c.Opt.Eol}
+	f := &pdfw.File{EOL: c.Opt.Eol, NoFreeHead: c.Opt.NoHead}
 	for ri, rv := range c.Revs {
 		r := pdfw.Revision{XRef: rv.Kind, Root: pdfw.Ref{Num: cat}, Split: c.Opt.Split, FlateXRef: c.Opt.Flate}
 		if len(c.Opt.W) == 3 {
